@@ -1764,7 +1764,7 @@ class Node:
         if force:
             self.logger.warning("forced close, sockets may not close cleanly")
         else:
-            for conn in self.connections.values():
+            for conn in list(self.connections.values()):
                 if conn.state in PEER_READY_STATES:
                     self.send_dpr(conn)
             abort_wait = False
@@ -1774,7 +1774,7 @@ class Node:
                     self.logger.error(
                         "shutdown timeout reached, forcing connections to close")
                     break
-                for peer in self.connections.values():
+                for peer in list(self.connections.values()):
                     self.logger.debug(f"{peer} waiting for closure")
                 time.sleep(1)
 
